@@ -280,8 +280,12 @@ def points(t, case, setting):
         loga, logb = getp(t, "loga"), getp(t, "logb")
         xmax = getp(t, "xmax")
         a, b = math.exp(loga), math.exp(logb)
-        w = np.exp(math.log(1e-4) + (u + 1) / 2 * (math.log(50.)
+        # w = a + b*x/xmax from 1e-4 (stated bound) to 5e3: sinh(w)
+        # overflows beyond 710 but log(sinh(w)) = w - ln 2 does not
+        w = np.exp(math.log(1e-4) + (u + 1) / 2 * (math.log(5e3)
                                                    - math.log(1e-4)))
+        lab.append("logsinh:w>710" if (w > 710.5).any()
+                   else "logsinh:w<=710")
         x = (w - a) / b * xmax
         return dict(x=x, sx=np.abs(x) + xmax * a / b + xmax / b * w,
                     loc=w * xmax / b, lab=lab, w=w)
